@@ -211,6 +211,51 @@ def run_case(case, acc=None):
         if acc is not None:
             acc.count("transitions", 2)
             acc.count("equivariance_checks")
+        if not msgs:
+            msgs = representations(x, y, ws, info["result"], acc)
+    return msgs
+
+
+def representations(x, y, ws, base, acc=None):
+    """the same point sets handed over in other array representations
+    (integer dtype / float32 where the values are exactly representable, a
+    non-contiguous view, read-only arrays) give the same transformation"""
+    r, t, c = base
+    tr_, tc_, tt_ = cond_tols(x, y, c)
+    variants = []
+    if np.array_equal(np.round(x), x) and np.abs(x).max() < 2**31:
+        variants.append(("x as int64", x.astype(np.int64), y))
+    if np.array_equal(np.round(y), y) and np.abs(y).max() < 2**31:
+        variants.append(("y as int64", x, y.astype(np.int64)))
+    if np.array_equal(x.astype(np.float32).astype(float), x) and \
+            np.array_equal(y.astype(np.float32).astype(float), y):
+        variants.append(("float32", x.astype(np.float32),
+                         y.astype(np.float32)))
+    big = np.zeros((3, 2 * x.shape[1]))
+    big[:, ::2] = x
+    variants.append(("x as a strided view", big[:, ::2], np.asfortranarray(y)))
+    xr, yr = x.copy(), y.copy()
+    xr.setflags(write=False)
+    yr.setflags(write=False)
+    variants.append(("read-only arrays", xr, yr))
+    msgs = []
+    for name, xv, yv in variants:
+        res = _umeyama(xv, yv, ws)
+        if acc is not None:
+            acc.count("transitions")
+            acc.count("representation_checks")
+        if res[0] != "ok":
+            msgs.append("%s: %s (%s)" % (name, res[0], res[1]))
+            continue
+        f32 = 1e-6 if name == "float32" else 0.0
+        _, r2, t2, c2 = res
+        if np.abs(r2 - r).max() > 2 * tr_ + f32 or abs(c2 - c) > (
+                2 * tc_ + f32) * c or np.abs(t2 - t).max() > 2 * tt_ + \
+                f32 * max(1.0, np.abs(y).max()):
+            msgs.append("%s: result differs from the float64 result "
+                        "(dR=%.3g dc=%.3g dt=%.3g)" %
+                        (name, np.abs(r2 - r).max(), abs(c2 - c),
+                         np.abs(t2 - t).max()))
     return msgs
 
 
